@@ -18,7 +18,7 @@ META = dict(
         quick="targets fchk, molden, molekel, wfn, wfx through api.dump_one; 2 atoms (incl. an ECP centre for formats that "
               "store core charges); shell lists: s+p, three shells in unsorted centre order, Cartesian d, pure d, SP, "
               "generalized [s,s]; conventions: the target's own, HORTON2, reversed+sign-flipped; orbitals restricted "
-              "closed-shell with a virtual, ROHF, unrestricted; allow_changes in {False, True}; all MO coefficients, "
+              "closed-shell with a virtual, ROHF, unrestricted, occs_aminusb, an empty orbital below an occupied one; allow_changes in {False, True}; all MO coefficients, "
               "orbital energies, contraction coefficients (and coordinates for wfn/wfx/fchk) symbolic; exponents from a "
               "rational grid; the written text is read back with the real reader and both objects are compared as "
               "functions of space through their expansion in linearly independent normalised primitives",
@@ -101,7 +101,8 @@ def h_convert(ctx, fmt="wfn", shells="sp", conv="own", twin=False, ecp=False):
     heavy = fmt in ("molden", "molekel")
     convname = {"own": {"fchk": "fchk", "molden": "molden", "molekel": "molden", "wfn": "wfn", "wfx": "wfn"}[fmt]}.get(conv, conv)
     mo_kind, occ = ctx.choice([("restricted", "closed"), ("restricted", "rohf"), ("unrestricted", "uhf"),
-                               ("restricted", "aminusb"), ("restricted", "aminusb-zero")], label="orbitals")
+                               ("restricted", "aminusb"), ("restricted", "aminusb-zero"), ("restricted", "hole")],
+                              label="orbitals")
     allow = ctx.choice([False, True], label="allow_changes")
     atoms = [(8, 6.0), (1, None)] if ecp else ATOMS
     with stubbed(*mods):
@@ -124,7 +125,8 @@ def h_convert(ctx, fmt="wfn", shells="sp", conv="own", twin=False, ecp=False):
         cls = f"{fmt},{shells},{conv}" + (",ecp" if ecp else "")
         if err is not None:
             # failing with an error is an allowed outcome; segmented / supported objects must not be refused
-            refusable = shells in ("SP", "gen", "dpure", "fcart") or (occ.startswith("aminusb") and (not allow or fmt == "fchk"))
+            refusable = shells in ("SP", "gen", "dpure", "fcart") or (occ.startswith("aminusb") and (not allow or fmt == "fchk")) \
+                or (occ == "hole" and fmt == "fchk")      # FCHK stores electron counts only: aufbau fillings
             ctx.oblige("supported-object-is-written", refusable or isinstance(err, PrepareDumpError) and not allow and shells in ("SP", "gen"),
                        cls=cls, detail=f"{type(err).__name__}: {err} / {err.__cause__!r}")
             return
